@@ -599,7 +599,7 @@ pub fn c14_run(ctx: &Ctx) -> i32 {
         "std offers no way to set RandomState keys; fresh threads and fresh processes are sampled instead (>= 8 key sets per text in-process); an order dependence that needs a specific collision pattern may need many samples".into(),
     ];
     regress(ctx, &mut rep, "C14", c14_replay);
-    let out = run_sharded(ctx, "C14", ctx.budget(40_000, 800_000), raw_c14, c14_test);
+    let out = run_sharded(ctx, "C14", ctx.budget(40_000, 300_000), raw_c14, c14_test);
     rep.absorb("E1-proptest-threads", out);
     c14_processes(ctx, &mut rep);
     if ctx.tier == Tier::Thorough {
